@@ -598,11 +598,10 @@ func (p *Pollard) WriteTo(w io.Writer) (int64, error) {
 	// Then write the entire pollard to the writer.
 	for _, root := range p.Roots {
 		bytes, err := writeOne(root, w)
+		totalBytes += bytes
 		if err != nil {
 			return totalBytes, err
 		}
-
-		totalBytes += bytes
 	}
 
 	return totalBytes, nil
@@ -650,16 +649,16 @@ func writeOne(n *polNode, w io.Writer) (int64, error) {
 		totalBytes += int64(wroteBytes)
 
 		leftBytes, err := writeOne(n.lNiece, w)
+		totalBytes += leftBytes
 		if err != nil {
 			return totalBytes, err
 		}
-		totalBytes += leftBytes
 
 		rightBytes, err := writeOne(n.rNiece, w)
+		totalBytes += rightBytes
 		if err != nil {
 			return totalBytes, err
 		}
-		totalBytes += rightBytes
 	} else {
 		wroteBytes, err := w.Write([]byte{0})
 		if err != nil {
